@@ -57,6 +57,7 @@ def _case(draw, tier):
         "lon360": draw(st.booleans()),
         "latlon": draw(st.booleans()),
         "radius": draw(sampled_from([1.0, 6371229.0])),
+        "names": draw(sampled_from([0, 0, 1, 2])),  # UGRID datasets: 0 = the library's own variable and dimension names
         "with_xyz": draw(sampled_from([False, False, True])),  # topology constructors: caller also supplies node_x/y/z (scaled by radius)
     }
     steps = []
@@ -93,6 +94,8 @@ def strategy(tier, excl):
 def classify(case):
     d = case["dialect"]
     labs = ["ctor:" + case["ctor"], "container:" + d["container"]]
+    if case["ctor"] == "ds-ugrid":
+        labs.append("ugrid-names:" + ["library's-own", "Mesh2", "short"][d.get("names", 1) % 3])
     for s in case["steps"]:
         labs.append(f"{s[0]}:{s[2]}")
         labs.append(f"{s[0]}-on:{s[1]}")
@@ -213,7 +216,7 @@ def _construct(ux, case, ctx):
         before = snap(inputs)
         return ux.Grid.from_face_vertices(obj, latlon=d["latlon"]), inputs, before
     if ctor == "ds-ugrid":
-        ds, _ = writers.ugrid_dataset(mesh, {"start_index": d["start_index"], "fill": -1 if d["fill"] is None else (FILL if d["fill"] == "int64min" else d["fill"]), "dtype": "int64" if d["fill"] == "int64min" else d["dtype"], "names": 1, "lon360": d["lon360"], "face_coords": True, "extras": ["edge_node_connectivity"]})
+        ds, _ = writers.ugrid_dataset(mesh, {"start_index": d["start_index"], "fill": -1 if d["fill"] is None else (FILL if d["fill"] == "int64min" else d["fill"]), "dtype": "int64" if d["fill"] == "int64min" else d["dtype"], "names": d.get("names", 1), "lon360": d["lon360"], "face_coords": d.get("names", 1) != 0 or d["with_xyz"], "extras": ["edge_node_connectivity"] if (d.get("names", 1) != 0 or d["latlon"]) else []})
     elif ctor == "ds-mpas":
         ds, _ = writers.mpas_dataset(mesh, radius=d["radius"], int_dtype=d["dtype"])
     elif ctor == "ds-esmf":
